@@ -196,13 +196,13 @@ def parse_vspec(path):
             sink = c['text'].append
         elif d in ('before', 'after', 'bodystart'):
             if d == 'bodystart':
-                ins = {'where': d, 'anchor': None, 'k': None, 'text': [], 'vline': vline + 1}
+                ins = {'where': d, 'anchor': None, 'k': None, 'text': [], 'vline': vline + 1, 'props': parse_props(tag) if tag else None}
             else:
                 mm = re.match(r'"((?:[^"\\]|\\.)*)"\s*(?:#(\d+))?\s*$', rest)
                 if not mm:
                     raise Undecided('%s:%d: @%s "line prefix" [#k]' % (vfile, vline, d))
                 ins = {'where': d, 'anchor': mm.group(1).replace('\\"', '"'), 'k': int(mm.group(2)) if mm.group(2) else None,
-                       'text': [], 'vline': vline + 1}
+                       'text': [], 'vline': vline + 1, 'props': parse_props(tag) if tag else None}
             cur.inserts.append(ins)
             sink = ins['text'].append
         else:
@@ -467,7 +467,7 @@ def weave_file(file, src, fnspecs, blockitems, canary=False, degrade=(), extern=
         for ins in spec.inserts:
             text = '\n'.join(ins['text']).rstrip()
             if ins['where'] == 'bodystart':
-                add(lo, 0, '\n' + text + '\n', ('contract', spec.vfile, ins['vline'], None))
+                add(lo, 0, '\n' + text + '\n', ('contract', spec.vfile, ins['vline'], None, ins.get('props')))
                 continue
             hits = []
             for alt in ins['anchor'].split(' || '):
@@ -484,9 +484,9 @@ def weave_file(file, src, fnspecs, blockitems, canary=False, degrade=(), extern=
                 continue
             a, z = hits[0]
             if ins['where'] == 'before':
-                add(a, 0, text + '\n', ('contract', spec.vfile, ins['vline'], None))
+                add(a, 0, text + '\n', ('contract', spec.vfile, ins['vline'], None, ins.get('props')))
             else:
-                add(z, 0, '\n' + text, ('contract', spec.vfile, ins['vline'], None))
+                add(z, 0, '\n' + text, ('contract', spec.vfile, ins['vline'], None, ins.get('props')))
 
     # functions with `while`/`loop` loops that get no decreases from a contract: termination is not verified
     spec_by_kw = {}
